@@ -529,7 +529,7 @@ PROPS["C13"] = dict(
          "(modelled) and five typed targets ((i32,i32), Vec<u8>, BTreeMap<String,Vec<i64>>, Option<(String,bool)>, [();3]; "
          "spec only), each also run with a clean end of input after the same k bytes; schema-typed targets (op rfaults: fixed and "
          "random (schema, text) pairs through the universal seed, reader failing after every k, compared with the typed model run "
-         "in fault mode); stream iteration over a failing reader; in raw_value builds also Box<RawValue> at top level (model: Model.IoFault.rawFault) and as Vec / map elements (spec only), so that the fault arrives while the reader holds a raw buffer; "
+         "in fault mode); stream iteration over a failing reader; io::Error::from(serde_json::Error) on an error of every category (op ioconv; the category -> ErrorKind table is regenerated from error.rs: c13_into_io_error); in raw_value builds also Box<RawValue> at top level (model: Model.IoFault.rawFault) and as Vec / map elements (spec only), so that the fault arrives while the reader holds a raw buffer; "
          "writer side: 300 (thorough 3000) serializer programs x {compact, pretty} with a writer accepting m bytes for m in "
          "0..=len+1 (sampled for long outputs) under random short-write patterns and Interrupted, recording every buffer handed "
          "to write_all. Non-trivial = k > 0 / m > 0; distinct = distinct lines.",
